@@ -1,6 +1,7 @@
 package checks
 
 import (
+	"fmt"
 	"syscall"
 	"context"
 	"os"
@@ -174,6 +175,7 @@ var c10Quiet = mon.NewLeakMonitor()
 type walkLog struct {
 	mu    sync.Mutex
 	rows  []model.Row
+	kept  []*gtree.WalkerNode
 	yield bool
 }
 
@@ -182,9 +184,22 @@ func (w *walkLog) cb(wn *gtree.WalkerNode) error {
 		runtime.Gosched()
 	}
 	w.mu.Lock()
-	w.rows = append(w.rows, model.Row{Row: wn.Row(), Branch: wn.Branch(), Name: wn.Name(), Level: int(wn.Level()), Path: wn.Path(), HasChild: wn.HasChild()})
+	w.rows = append(w.rows, rowOf(wn))
+	w.kept = append(w.kept, wn) // the callback may keep what it is given
 	w.mu.Unlock()
 	return nil
+}
+
+// retained re-reads the kept nodes after the walk; "" when each still shows its own visit.
+func (w *walkLog) retained() string {
+	w.mu.Lock()
+	defer w.mu.Unlock()
+	for i, wn := range w.kept {
+		if i < len(w.rows) && rowOf(wn) != w.rows[i] {
+			return fmt.Sprintf("the node given to callback %d showed %q then and shows %q after the walk", i, w.rows[i].Row, wn.Row())
+		}
+	}
+	return ""
 }
 
 type c10Result struct {
@@ -284,6 +299,11 @@ func c10RunW(c *Ctx, op string, doc []byte, massive bool, profile int, seed uint
 	}
 	res.out, res.err, res.pan, res.stk = w.Bytes(), o.Err, o.Panic, o.Stack
 	_, res.failed, res.conc = w.Stats()
+	if res.pan == nil && res.err == nil {
+		if sdiff := wl.retained(); sdiff != "" {
+			res.pan, res.stk = "walker node changed after its visit: "+sdiff, ""
+		}
+	}
 	wl.mu.Lock()
 	res.rows = append([]model.Row(nil), wl.rows...)
 	wl.mu.Unlock()
